@@ -77,7 +77,10 @@ def random_fields(rng, kind, gen=False):
         tys[0] = "G0"
     if kind == "tuple":
         return [Field(t) for t in tys]
-    return [Field(t, "f%d" % i) for i, t in enumerate(tys)]
+    # field names that COLLIDE with names the generated code uses for its own parameters and bindings (`f` the formatter, `s` the
+    # parsed string, `x`, `value`, `field0`, `idx`): a struct variant binds its fields by their own names
+    names = rng.sample(["f", "s", "x", "value", "idx", "field0", "e", "n", "f1"], n)
+    return [Field(t, nm) for nm, t in zip(names, tys)]
 
 
 def string_enum(rng, nvariants=None, *, allow_default=True, allow_disabled=True, allow_dw=True, allow_aci=True,
